@@ -21,7 +21,7 @@ var rec = vh.NewRecorder("C05", "lockstep-streaming",
 		"Content-Length framed, produced in lock-step: the scripted backend emits chunk i+1 only after the fake proxy has observed every "+
 		"byte of chunk i in the agent's upload (decoded incrementally); a chunk not observed within 5s while the producer is idle, which "+
 		"turns up after the producer is released, is a confirmed violation; the agent runs in one of five configurations (default, session tracking, shim, banner, all); non-trivial = at least 2 chunks; distinct = SHA-256 of the case"+
-		" One case in eight produces 2-48 such responses at the same time (each backend handler waits after its first chunk until the proxy has seen the first chunk of all of them)."+
+		" One case in six follows a small response whose upload the proxy answered with 411, 501, 413, 400, 404, 429, 308 or a 5xx right after the headers. One case in eight produces 2-48 such responses at the same time (each backend handler waits after its first chunk until the proxy has seen the first chunk of all of them)."+
 		" Later additions: five agent configurations (default, session tracking, websocket shim, banner, all) and text/html as well as octet-stream bodies.")
 
 func TestMain(m *testing.M) { vh.Main(m, rec) }
@@ -35,6 +35,9 @@ type Case struct {
 	// Concurrent > 1: that many responses of this shape are produced at the same time; every backend handler waits
 	// after its first chunk until the proxy has observed the first chunk of all of them (responses that overlap in time)
 	Concurrent int `json:"concurrent,omitempty"`
+	// Prelude > 0: before this response, the upload of a small other response is answered by the proxy (or something
+	// in front of it) with this status, straight after the request headers; the agent lives on across cases
+	Prelude int `json:"prelude_upload_status,omitempty"`
 }
 
 // barrier: all n streams have had their first chunk observed by the proxy (or one of them has given up waiting).
@@ -81,6 +84,9 @@ func genCase(t *rapid.T) Case {
 	c.Framing = rapid.SampledFrom([]string{"chunked", "chunked", "cl"}).Draw(t, "framing")
 	c.Config = rapid.SampledFrom([]string{"default", "default", "sessions", "shim", "banner", "all"}).Draw(t, "config")
 	c.HTML = rapid.IntRange(0, 2).Draw(t, "html") == 0
+	if rapid.IntRange(0, 5).Draw(t, "prelude") == 0 {
+		c.Prelude = rapid.SampledFrom([]int{411, 501, 413, 400, 404, 503, 429, 500, 502, 308}).Draw(t, "preludeStatus")
+	}
 	if rapid.IntRange(0, 7).Draw(t, "conc") == 0 {
 		c.Concurrent = rapid.SampledFrom([]int{2, 8, 17, 20, 33, 48}).Draw(t, "concurrent")
 		if len(c.Chunks) > 4 {
@@ -156,6 +162,7 @@ type rig struct {
 	backend *vh.RawBackend
 	mu      sync.Mutex
 	mons    map[string]*monitor // by request ID
+	upFault map[string]int      // by request ID: status the proxy answers the first upload attempt with
 	scripts map[string]func(net.Conn)
 	ctr     int
 }
@@ -188,7 +195,7 @@ func getRig(t vh.TB, config string) *rig {
 	if r := rigs[config]; r != nil {
 		return r
 	}
-	r := &rig{mons: map[string]*monitor{}, scripts: map[string]func(net.Conn){}}
+	r := &rig{mons: map[string]*monitor{}, scripts: map[string]func(net.Conn){}, upFault: map[string]int{}}
 	r.backend = vh.NewRawBackend(func(rq *vh.RawRequest, c net.Conn) bool {
 		tok := ""
 		if v := rq.Values(vh.TokenHeader); len(v) > 0 {
@@ -206,6 +213,18 @@ func getRig(t vh.TB, config string) *rig {
 	})
 	r.fp = vh.NewFakeProxy()
 	r.fp.IdleReply = 50 * time.Millisecond
+	r.fp.SetUploadHook(func(q *vh.FPRequest, w http.ResponseWriter, rq *http.Request) bool {
+		r.mu.Lock()
+		st := r.upFault[q.ID]
+		delete(r.upFault, q.ID)
+		r.mu.Unlock()
+		if st == 0 {
+			return false
+		}
+		w.Header().Set("Connection", "close")
+		w.WriteHeader(st)
+		return true
+	})
 	r.fp.SetOnUploadBytes(func(q *vh.FPRequest, b []byte) {
 		r.mu.Lock()
 		m := r.mons[q.ID]
@@ -277,6 +296,18 @@ func runCase(t vh.TB, c *Case) vh.Outcome {
 func runOne(t vh.TB, c *Case, bar *barrier) vh.Outcome {
 	r := getRig(t, c.Config)
 	o := vh.Outcome{NonTrivial: len(c.Chunks) >= 2}
+	if c.Prelude > 0 && bar == nil {
+		o.Classes = append(o.Classes, fmt.Sprintf("after-an-upload-answered-%d", c.Prelude))
+		r.mu.Lock()
+		r.ctr++
+		pid := fmt.Sprintf("c05-prelude-%d", r.ctr)
+		r.upFault[pid] = c.Prelude
+		r.mu.Unlock()
+		pq := r.fp.Submit(pid, "", "GET", []byte("GET /prelude HTTP/1.1\r\nHost: c05.example\r\n\r\n"))
+		pq.Wait(1 * time.Second) // whether and when that response arrives is not this property's subject
+		time.Sleep(50 * time.Millisecond)
+		r.fp.Forget(pid)
+	}
 	o.Classes = append(o.Classes, "agent-config-"+c.Config)
 	if c.HTML {
 		o.Classes = append(o.Classes, "html-response")
